@@ -323,6 +323,9 @@ class C15(framework.PropertyCheck):
             # an operand that is itself a template: its unquotes belong to the caller and are evaluated when the expansion runs, in the caller's scope
             ("(defmacro m9 [p] `(list ,p ,p))", f'(m9 `(a ,{V}))', f"(list (list 'a {V}) (list 'a {V}))"),
             ("(defmacro m9 [p] `(first ,p))", f'(list (m9 `(,(+ {V} 1) 0)) (last (for/list [e9 `(1 ,{V} ,(+ {V} 1))] (* e9 2))))', f'(list (+ {V} 1) (* 2 (+ {V} 1)))'),
+            # a quoted list inside a template is still template: unquotes inside it are filled in
+            ("(defmacro m9 [p q] `(list (first '(,p ,q)) (length '(,@(list p q p)))))", f'(m9 {V} x)', f"(list '{V} 3)"),
+            ("(defmacro m9 args `(length '(,@args)))", f'(list (m9 a b {V}) (m9))', '(list 3 0)'),
             ("(defmacro m9 [p] `(fn [] ,p))", f'(let ([f9 (m9 `(v ,{V}))]) (list (f9) (car `(,{V} 0)) (cadr `(0 ,{V}))))', f"(list (list 'v {V}) {V} {V})"),
         ])
         return m
